@@ -447,3 +447,58 @@ Proof.
   - cbn [subst]. rewrite rmap_map. rewrite (rmap_ok _ cs cs); [reflexivity |].
     clear - IH. induction IH as [| x r Hx _ IHr]; constructor; [apply Hx | exact IHr].
 Qed.
+
+(** ** [Substitution::apply] ([SubstFolder], chalk-ir/src/lib.rs)
+
+    Same as [Subst] except that every free variable must belong to the substituted binder
+    ([assert_eq!(bound_var.debruijn, INNERMOST)]). *)
+Fixpoint subst_apply (ps : list tm) (k : N) (t : tm) : res tm :=
+  match t with
+  | Var s d i =>
+      if k <=? d then
+        if d =? k then
+          match nth_error ps (N.to_nat i) with
+          | None => Panic IndexOutOfBounds
+          | Some p => if kind_eqb (kind_of p) (sort_kind s) then Ok (shift_in k 0 p) else Panic UnwrapNone
+          end
+        else Panic AssertFailed
+      else Ok t
+  | CVar d i c =>
+      if k <=? d then
+        if d =? k then
+          match nth_error ps (N.to_nat i) with
+          | None => Panic IndexOutOfBounds
+          | Some p => if kind_eqb (kind_of p) KConst then Ok (shift_in k 0 p) else Panic UnwrapNone
+          end
+        else Panic AssertFailed
+      else Ok t
+  | Node h cs => rbind (rmap (subst_apply ps (under h k)) cs) (fun cs' => Ok (Node h cs'))
+  end.
+
+Lemma rmap_ok_inv {A B} (f : A -> res B) (l : list A) (l' : list B) :
+  rmap f l = Ok l' -> Forall2 (fun x y => f x = Ok y) l l'.
+Proof.
+  revert l'. induction l as [| x r IH]; cbn [rmap]; intros l' H.
+  - inversion H. constructor.
+  - destruct (f x) as [y | s] eqn:Ex; cbn [rbind] in H; [| discriminate H].
+    destruct (rmap f r) as [ys | s] eqn:Er; cbn [rbind] in H; [| discriminate H].
+    inversion H; subst. constructor; [assumption | apply IH; reflexivity].
+Qed.
+
+(** Whenever [Substitution::apply] does not panic it computes what [Subst::apply] computes, so
+    every law of [subst] transfers to it. *)
+Lemma subst_apply_agrees_lemma : forall t ps k t', subst_apply ps k t = Ok t' -> subst ps k t = Ok t'.
+Proof.
+  induction t as [s d i | d i c IH | h cs IH] using tm_ind'; intros ps k t'; cbn [subst_apply subst].
+  - destruct (k <=? d); [| trivial]. destruct (d =? k); [| discriminate].
+    destruct (nth_error ps (N.to_nat i)) as [p |]; [| discriminate].
+    destruct (kind_eqb (kind_of p) (sort_kind s)); [trivial | discriminate].
+  - destruct (k <=? d); [| trivial]. destruct (d =? k); [| discriminate].
+    destruct (nth_error ps (N.to_nat i)) as [p |]; [| discriminate].
+    destruct (kind_eqb (kind_of p) KConst); [trivial | discriminate].
+  - destruct (rmap (subst_apply ps (under h k)) cs) as [cs' | s] eqn:E; cbn [rbind]; [| discriminate].
+    intros H; inversion H; subst. apply rmap_ok_inv in E.
+    rewrite (rmap_ok _ cs cs'); [reflexivity |].
+    clear H. induction E as [| x y r r' Hxy _ IHr]; [constructor |].
+    inversion IH; subst. constructor; [eauto | apply IHr; assumption].
+Qed.
